@@ -263,7 +263,7 @@ impl RepoHandle {
     pub fn init(be: MemBackend, hot: Option<MemBackend>, cfg: &ConfigOptions) -> RusticResult<(Self, Repository<OpenStatus>)> {
         let key = MasterKey::new();
         let h = Self { be, hot, key };
-        let repo = Repository::new(&RepositoryOptions::default(), &h.backends())?;
+        let repo = Repository::new(&Self::default_opts(), &h.backends())?;
         let repo = repo.init(&Credentials::Masterkey(h.key.clone()), &KeyOptions::default(), cfg)?;
         Ok((h, repo))
     }
@@ -273,7 +273,12 @@ impl RepoHandle {
     /// Open again (fresh index, fresh config) — needed between commands: the index of an opened repository is
     /// not refreshed by a backup.
     pub fn open(&self) -> RusticResult<Repository<OpenStatus>> {
-        self.open_with(&RepositoryOptions::default())
+        self.open_with(&Self::default_opts())
+    }
+    /// The local cache is OFF for harness repositories (it would litter ~/.cache/rustic and let repositories
+    /// with equal ids share cache entries); C19 builds its cached handles explicitly.
+    pub fn default_opts() -> RepositoryOptions {
+        RepositoryOptions::default().no_cache(true)
     }
 }
 
